@@ -4,7 +4,8 @@ import random
 
 from .. import core, lifecheck as L
 
-ALL = ["p1", "p2", "p3", "p4", "p5", "p6", "p7", "p8", "p9", "p10", "bad", "bad2"]
+ALL = ["p1", "p2", "p3", "p4", "p5", "p6", "p7", "p8", "p9", "p10", "bad", "bad2", "bad3"]
+PRETOOLED = ["p1", "p2", "q2", "p4", "p5", "p3", "p8"]      # histories on functions tooled in place beforehand; q2 is a plain overlay
 
 
 def with_how(rng, hist):
@@ -17,20 +18,23 @@ def with_how(rng, hist):
     return ops
 
 
-def random_history(rng, n):
+def random_history(rng, n, ALL=ALL, lifo=False):
     status = {p: "new" for p in ALL}
     ops = []
     for k in range(n):
         r = rng.random()
         act = [p for p in ALL if status[p] == "active"]
+        act.sort(key=lambda p: min(i for i, o in enumerate(ops) if o[:2] == ["act", p]))
         if r < 0.3:
             p = rng.choice(ALL)
+            if p == "q2" and status[p] != "new":
+                continue               # a plain overlay may be entered again; only Probe objects refuse that
             ops.append(["act", p])
             if status[p] == "new" and not p.startswith("bad"):
                 status[p] = "active"
         elif r < 0.5 and act:
             # mostly LIFO, sometimes any order (global probes)
-            p = act[-1] if rng.random() < 0.6 else rng.choice(act)
+            p = act[-1] if lifo or rng.random() < 0.6 else rng.choice(act)
             ops.append(["deact", p, rng.choice(["normal", "exc", "explicit", "derived"])])
             status[p] = "done"
         else:
@@ -44,10 +48,10 @@ def run(out, tier, seed):
     cases = []
     sigs_all = {}
     if tier == "quick":
-        plans = [(5, ["p1", "p3", "p4", "bad"]), (4, ["p6", "p1", "p4"]), (4, ["p7", "p8", "p9"]), (4, ["p10", "p1", "p4"])]
+        plans = [(5, ["p1", "p3", "p4", "bad"]), (4, ["p6", "p1", "p4"]), (4, ["p7", "p8", "p9"]), (4, ["p10", "p1", "p4"]), (4, ["bad3", "p1", "p4"])]
     else:
         plans = [(6, ["p1", "p3", "p4", "bad"]), (5, ["p2", "p5", "p4", "bad2"]), (5, ["p1", "p2", "p3", "p4", "p5"]),
-                 (5, ["p6", "p1", "p4", "bad2"]), (5, ["p7", "p8", "p9", "p1"]), (5, ["p10", "p1", "p2", "bad"])]
+                 (5, ["p6", "p1", "p4", "bad2"]), (5, ["p7", "p8", "p9", "p1"]), (5, ["p10", "p1", "p2", "bad"]), (5, ["bad3", "p1", "p3", "p4"])]
     for maxops, uni in plans:
         hists, sigs = L.explore(out, maxops, uni, f"LifeMechMC[{maxops},{'+'.join(uni)}]")
         for s, w in sigs.items():
@@ -60,6 +64,12 @@ def run(out, tier, seed):
     for _ in range(nrand):
         cases.append({"id": len(cases), "src": "random", "ops": random_history(rng, rng.randint(6, 30))})
     traces = L.run_histories(cases, work)
+    # the same kind of histories on functions that were tooled in place beforehand, with a plain overlay (no tooling of its
+    # own) among the probes: selective tooling by probing() must not starve it (with-block order only)
+    pre = [{"id": len(cases) + i, "src": "pretooled", "pretooled": True, "ops": random_history(rng, rng.randint(6, 24), PRETOOLED, lifo=True)}
+           for i in range(80 if tier == "quick" else 1500)]
+    cases += pre
+    traces += L.run_histories(pre, work, par=4)
     fails, results = L.validate(traces, work)
     for i, r in enumerate(results):
         out.add_tlc(f"TraceLife[{i}]", r)
